@@ -242,7 +242,8 @@ def s2(ctx, rep):
     lowup = [("lower", "0"), ("upper", "1", "sz")]
     insts = [
         ("scale_from_zero_one", P.func("syne_tune.optimizer.schedulers.searchers.utils.hp_ranges_impl.scale_from_zero_one"),
-         lambda e: isinstance(e, ast.Call) and fn_name(e) in ("from_internal", "exp", "expm1")),
+         lambda e: (isinstance(e, ast.Call) and fn_name(e) in ("from_internal", "exp", "expm1")) or
+         (isinstance(e, ast.Name) and e.id.endswith("_internal") and isinstance(e.ctx, ast.Load))),     # bounds on the internal scale
         ("HyperparameterRangeFiniteRange._map_from_int", P.method("HyperparameterRangeFiniteRange", "_map_from_int"),
          lambda e: isinstance(e, ast.Call) and fn_name(e) in ("from_internal", "exp")),
         ("FiniteRange._map_from_int", P.method("FiniteRange", "_map_from_int"),
